@@ -7,6 +7,7 @@ import (
 	"os/exec"
 	"path/filepath"
 	"runtime"
+	"strconv"
 	"strings"
 	"sync"
 	"sync/atomic"
@@ -316,6 +317,7 @@ func OpenProbe(mode string) {
 				buf := make([]byte, 1<<20)
 				fmt.Printf("%s\n", buf[:runtime.Stack(buf, true)])
 				fmt.Println("OPENPROBE-STOP-BLOCKED the stop function called by the listener has not returned after 10 s")
+				killOwnChildren() // the blocked port cannot be closed any more: its helper process would stay behind
 				os.Exit(0)
 			case <-time.After(2 * time.Millisecond):
 			}
@@ -451,5 +453,33 @@ func OpenProbe(mode string) {
 			os.Exit(0)
 		}
 		fmt.Println("OPENPROBE-OK Ins/Outs returned:", e1, "|", e2)
+	}
+}
+
+// killOwnChildren ends the direct child processes of this process (the helper processes of ports that can no longer
+// be closed); the library starts each helper in a process group of its own, so a group signal does not reach them.
+func killOwnChildren() {
+	me := os.Getpid()
+	ents, _ := os.ReadDir("/proc")
+	for _, e := range ents {
+		pid, err := strconv.Atoi(e.Name())
+		if err != nil || pid == me {
+			continue
+		}
+		b, err := os.ReadFile(filepath.Join("/proc", e.Name(), "stat"))
+		if err != nil {
+			continue
+		}
+		// pid (comm) state ppid ...: comm may contain spaces and parentheses, the fields start behind the last ')'
+		rest := string(b)
+		if k := strings.LastIndexByte(rest, ')'); k >= 0 {
+			rest = rest[k+1:]
+		}
+		f := strings.Fields(rest)
+		if len(f) >= 2 {
+			if ppid, _ := strconv.Atoi(f[1]); ppid == me {
+				syscall.Kill(pid, syscall.SIGKILL)
+			}
+		}
 	}
 }
